@@ -2,6 +2,8 @@ from contracts.decoder_c import DecodeTask
 
 
 def add(run, tier):
+    from contracts.encoder_c import CallEncodeTask
+    run.add(CallEncodeTask('C08'))
     for combined in (True, False):
         run.add(DecodeTask('C08', combined, False))
     run.assume('_call_decode_function hands the payload integer (int.from_bytes of the data, big endian) to the generated decode function of the frame\'s PGN, once (checked with the function inlined into _decode)')
